@@ -515,3 +515,83 @@ Proof.
     rewrite Forall_forall in Hne. specialize (Hne e0 Hin). intros E.
     apply (f_equal (@length str)) in E. rewrite app_length, firstn_length in E. destruct (fst e0); [contradiction|cbn in E; lia].
 Qed.
+
+(* ------------------------------------------------------------------ no invented bytes *)
+Lemma mkdir_p_files : forall cs fs cur fs' ok,
+  mkdir_p fs cur cs = (fs', ok) -> forall l c, lookup fs' l = Some (F c) -> lookup fs l = Some (F c).
+Proof.
+  induction cs as [|c0 cs IH]; intros fs cur fs' ok H l c Hl.
+  - inversion H; subst. exact Hl.
+  - destruct c0 as [|s|]; cbn [mkdir_p] in H.
+    + eapply IH; eassumption.
+    + destruct (lookup fs (cur ++ [s])) as [[|c1]|] eqn:E.
+      * eapply IH; eassumption.
+      * inversion H; subst. exact Hl.
+      * pose proof (IH _ _ _ _ H l c Hl) as H1.
+        destruct (loc_eqb (cur ++ [s]) l) eqn:El.
+        -- apply loc_eqb_spec in El. subst l. rewrite lookup_set_same in H1. discriminate.
+        -- rewrite lookup_set_other in H1; [exact H1|]. intros E2. subst l. rewrite loc_eqb_refl in El. discriminate.
+    + eapply IH; eassumption.
+Qed.
+
+Lemma create_file_files fs T name c0 fs' :
+  create_file fs T name c0 = Some fs' ->
+  forall l c, lookup fs' l = Some (F c) -> lookup fs l = Some (F c) \/ c = c0.
+Proof.
+  unfold create_file. destruct (rev (split_slash name)) as [|ls ir]; [discriminate|].
+  destruct (comp_of_seg ls) as [|[|s|] [|? ?]]; try discriminate.
+  destruct (stat_walk fs [] (base T name ++ flat_map kcomp_of_seg (rev ir))) as [p|]; [|discriminate].
+  destruct (lookup fs p) as [[|?]|]; try discriminate.
+  assert (G : Some (fs_set fs (p ++ [s]) (F c0)) = Some fs' ->
+              forall l c, lookup fs' l = Some (F c) -> lookup fs l = Some (F c) \/ c = c0).
+  { intros H l c Hl. inversion H; subst fs'. destruct (loc_eqb (p ++ [s]) l) eqn:El.
+    - apply loc_eqb_spec in El. subst l. rewrite lookup_set_same in Hl. inversion Hl. right. reflexivity.
+    - rewrite lookup_set_other in Hl; [left; exact Hl|]. intros E2. subst l. rewrite loc_eqb_refl in El. discriminate. }
+  destruct (lookup fs (p ++ [s])) as [[|?]|]; try discriminate; exact G.
+Qed.
+
+Lemma extract_loop_files T rn : forall ms fs flt rep,
+  forall l c, lookup (out_fs (extract_loop fs T flt rn ms rep)) l = Some (F c) ->
+    lookup fs l = Some (F c) \/ exists m, In m ms /\ selected flt m = true /\ c = m_data m.
+Proof.
+  induction ms as [|m ms IH]; intros fs flt rep l c H; cbn [extract_loop] in H.
+  - left. exact H.
+  - assert (Later : forall fs0, lookup (out_fs (extract_loop fs0 T flt rn ms rep)) l = Some (F c) ->
+                      lookup fs0 l = Some (F c) \/ exists m0, In m0 (m :: ms) /\ selected flt m0 = true /\ c = m_data m0).
+    { intros fs0 H0. destruct (IH fs0 flt rep l c H0) as [H1|(m0 & Hin & Hs & Hc)]; [left; exact H1|].
+      right. exists m0. split; [right; exact Hin|]. split; assumption. }
+    unfold selected at 1 in Later.
+    destruct (enclosed (m_name m)) eqn:Ee; cbn [negb] in H; [|apply Later; exact H].
+    destruct (match flt with Some fl => negb (existsb (str_eqb (m_name m)) fl) | None => false end) eqn:Ef; [apply Later; exact H|].
+    destruct (is_dir_name (m_name m)) eqn:Ed.
+    + destruct (mkdir_p fs [] (full_comps T (m_name m))) as [fs1 ok] eqn:Em. destruct ok.
+      * destruct (IH fs1 flt rep l c H) as [H1|(m0 & Hin & Hs & Hc)].
+        -- left. eapply mkdir_p_files; eassumption.
+        -- right. exists m0. split; [right; exact Hin|]. split; assumption.
+      * left. cbn [out_fs] in H. eapply mkdir_p_files; eassumption.
+    + destruct (m_symlink m) eqn:Esl; [apply Later; exact H|].
+      assert (Hsel : selected flt m = true).
+      { unfold selected. rewrite Ee, Ed, Esl. destruct flt as [fl|]; [|reflexivity].
+        apply negb_false_iff in Ef. rewrite Ef. reflexivity. }
+      destruct (mkdir_p fs [] (removelast (full_comps T (renamed rn (m_name m))))) as [fs1 ok] eqn:Em. destruct ok.
+      * destruct (create_file fs1 T (renamed rn (m_name m)) (m_data m)) as [fs2|] eqn:Ec.
+        -- (* the loop continues with the reported list extended: use the IH at that list *)
+           assert (H' : lookup (out_fs (extract_loop fs2 T flt rn ms (rep ++ [renamed rn (m_name m)]))) l = Some (F c)) by exact H.
+           clear H. revert H'. generalize (rep ++ [renamed rn (m_name m)]). intros rep' H'.
+           destruct (IH fs2 flt rep' l c H') as [H1|(m0 & Hin & Hs & Hc)].
+           ++ destruct (create_file_files _ _ _ _ _ Ec l c H1) as [H2|H2].
+              ** left. eapply mkdir_p_files; eassumption.
+              ** right. exists m. split; [left; reflexivity|]. split; assumption.
+           ++ right. exists m0. split; [right; exact Hin|]. split; assumption.
+        -- left. cbn [out_fs] in H. eapply mkdir_p_files; eassumption.
+      * left. cbn [out_fs] in H. eapply mkdir_p_files; eassumption.
+Qed.
+
+Theorem extract_to_dir_files_are_member_bytes fs T flt rn ms l c :
+  lookup (out_fs (extract_to_dir fs T flt rn ms)) l = Some (F c) ->
+  lookup fs l = Some (F c) \/ exists m, In m ms /\ selected (remaining fs T rn flt) m = true /\ c = m_data m.
+Proof.
+  unfold extract_to_dir. destruct flt as [files|]; cbn [remaining].
+  - rewrite prefilter_spec. apply extract_loop_files.
+  - apply extract_loop_files.
+Qed.
